@@ -11,7 +11,7 @@ import sys
 from fractions import Fraction as F
 
 import bitstring
-from bitstring import Array, Dtype
+from bitstring import Array, Bits, Dtype
 
 from rv import util
 from rv.model import minifloat as mf
@@ -512,8 +512,38 @@ def judge_senc(ctx, c):
                          f'{res[1] if res[0] == "ok" else repr(res[1])[:80]} expected code {exp}')
 
 
+def judge_sastype(ctx, c):
+    """Array.astype to a dtype of the same format with another scale: the VALUES are converted (decoded, divided by the new scale, encoded)."""
+    fmt, mode = c['fmt'], c['mode']
+    codec = mf.CODECS[fmt]
+    s_from, s_to = (None if c['from'] is None else scale_of(c['from'])), (None if c['to'] is None else scale_of(c['to']))
+    with util.options(mxfp_overflow=mode, lsb0=False):
+        d_from = Dtype(c['nm']) if s_from is None else Dtype(c['nm'], scale=s_from)
+        d_to = Dtype(c['nm']) if s_to is None else Dtype(c['nm'], scale=s_to)
+        codes = c['codes']
+        a = Array(d_from)
+        a.data = bitstring.BitArray().join(Bits(uint=k, length=codec.nbits) for k in codes)
+        vals = call(a.tolist)
+        if vals[0] != 'ok' or any(isinstance(v, float) and (math.isnan(v) or math.isinf(v)) for v in vals[1]):
+            return
+        got = call(lambda: a.astype(d_to))
+        ref = call(lambda: Array(d_to, vals[1]))
+        ctx.op('scaled-astype', outcome(got))
+        if got[0] == 'ok' and ref[0] == 'ok' and got[1].data == ref[1].data and got[1].dtype.scale == d_to.scale:
+            ctx.ok((fmt, 'sastype', c['from'] is None, c['to'] is None), True)
+        elif got[0] == 'exc' and ref[0] == 'exc':
+            ctx.ok((fmt, 'sastype', 'both-refuse'), True)       # a value that does not fit the target is refused by both routes
+        elif got[0] != ref[0] and ref[0] == 'exc':
+            ctx.mismatch(f'C11|scaled-astype|{fmt}|accepted-values-that-do-not-fit', c, f'{vals[1]!r:.80}')
+        elif got[0] == 'exc':
+            ctx.mismatch(f'C11|scaled-astype|{fmt}|raised:{type(got[1]).__name__}', c, f'{got[1]!s:.100}')
+        else:
+            ctx.mismatch(f'C11|scaled-astype|{fmt}|codes-differ-from-building-the-values-afresh', c,
+                         f'{vals[1]!r:.60} -> {got[1].tolist()!r:.60}, Array(dtype, values) gives {ref[1].tolist()!r:.60}')
+
+
 JUDGES = {'enc': judge_enc, 'enc16': judge_enc16, 'dec': judge_dec, 'rt': judge_rt, 'sdec': judge_sdec,
-          'senc': judge_senc}
+          'senc': judge_senc, 'sastype': judge_sastype}
 
 
 def judge(ctx, case):
@@ -802,6 +832,12 @@ def run(ctx):
         ctx.run_case(judge, c)
         if i % 1999 == 0:
             ctx.sample(c)
+    for i in range(ctx.scale(1500, 40000)):
+        fmt = rng.choice([f for f in FORMATS if mf.CODECS[f].nbits <= 8])
+        codec = mf.CODECS[fmt]
+        c = {'k': 'sastype', 'fmt': fmt, 'nm': spell(fmt), 'mode': rng.choice(modes_of(fmt)), 'from': rng.choice([None, None, rng.choice(SCALES)]),
+             'to': rng.choice([None, rng.choice(SCALES), rng.choice(SCALES)]), 'codes': [rng.randrange(codec.ncodes) for _ in range(rng.choice([1, 2, 5]))]}
+        ctx.run_case(judge, c)
     lap('5 scaled')
 
 
